@@ -199,6 +199,63 @@ def _chunk(args):
     return part
 
 
+def big_layouts(ctx):
+    """Dozens to hundreds of paths on non-square extents (size thresholds, counters, cell
+    arithmetic for two-digit cell numbers); deterministic modular layouts, no sampling."""
+    out = []
+    out.append(tuple(((i % 10, i // 10), ((i * 7) % 10, (i * 3) % 6)) for i in range(60)))
+    out.append(tuple((((i * 37) % 25 / 2, (i * 11) % 14 / 2), ((i * 13) % 25 / 2, (i * 29) % 14 / 2))
+                     for i in range(150)))
+    out.append(tuple(((0.5 * i, 0.0), (0.5 * i, 3.0 + (i % 3))) for i in range(41)))     # comb
+    if ctx.thorough:
+        out.append(tuple((((i * 53) % 101 / 4, (i * 17) % 40 / 4), ((i * 71) % 101 / 4, (i * 3) % 40 / 4))
+                         for i in range(400)))
+    return out
+
+
+def _big_job(args):
+    """One index, one removal order, a few queries after every removal."""
+    paths, bins, reverse, order_kind = args
+    spatial_grid = _lib()
+    part = core.Part()
+    n_paths = len(paths)
+    order = {"up": list(range(n_paths)), "down": list(range(n_paths - 1, -1, -1)),
+             "stride": [(i * 7) % n_paths for i in range(n_paths)] if n_paths % 7 else
+             [(i * 11) % n_paths for i in range(n_paths)]}[order_kind]
+    desc = f"Index(<{n_paths} paths>, {bins}, {reverse})"
+    spatial_grid.Index([[list(a), list(b)] for a, b in DECOY_PATHS], 3, True)
+    index = spatial_grid.Index([[list(p[0]), list(p[1])] for p in paths], bins, reverse)
+    end_cells = [(ident, pt, cell_of(index, pt)) for ident, pt in ends_of(paths, reverse)]
+    xs = [p[0][0] for p in paths] + [p[1][0] for p in paths]
+    ys = [p[0][1] for p in paths] + [p[1][1] for p in paths]
+    queries = [(min(xs), min(ys)), (max(xs), max(ys)), ((min(xs) + max(xs)) / 2, (min(ys) + max(ys)) / 2),
+               (min(xs) - 1, max(ys) + 1), (max(xs) / 3, max(ys) / 1.5), (max(xs) + 5, min(ys))]
+    removed = set()
+    for depth in range(n_paths + 1):
+        for query in queries:
+            bad = check_query(index, paths, reverse, removed, query, end_cells)
+            part.count("queries")
+            if bad:
+                part.violation(f"{bad[0]}:big:{n_paths}:{bins}:{reverse}:{order_kind}:{depth}:{query}",
+                               f"{desc} after removing {depth} paths ({order_kind}): {bad[1]}",
+                               _case(paths, bins, reverse, order[:depth], query))
+        part.count("states")
+        if depth < n_paths:
+            try:
+                index.remove_path(order[depth])
+            except Exception as exc:        # pylint: disable=broad-except
+                part.violation(f"remove:big:{n_paths}:{bins}:{reverse}:{order_kind}:{depth}",
+                               f"{desc}: remove_path({order[depth]}) raised {exc!r}",
+                               _case(paths, bins, reverse, order[:depth + 1], None))
+                break
+            removed.add(order[depth])
+            part.count("transitions")
+    part.count("indexes")
+    part.count("big_histories")
+    part.count("nontrivial")
+    return part
+
+
 def run(ctx):
     all_paths = [(a, b) for a in LATTICE for b in LATTICE]          # 81 (start, end) pairs
     queries = [(x, y) for x in QUERY_COORDS for y in QUERY_COORDS]
@@ -226,6 +283,10 @@ def run(ctx):
         coarse = [(x, y) for x in (-1, 0.5, 1, 3) for y in (-1, 0.5, 1, 3)]
         jobs += [(chunk, [2, 3], coarse, False) for chunk in core.split(threes, 16)]
     part = core.fan_out(ctx, _chunk, jobs)
+    big_jobs = [(paths, bins, reverse, kind) for paths in big_layouts(ctx)
+                for bins in (3, 6, 10, 13) for reverse in (False, True)
+                for kind in ("up", "down", "stride")]
+    part.merge(core.fan_out(ctx, _big_job, big_jobs))
     cnt = part.counters
     coverage = {
         "states": cnt.get("states", 0),
@@ -238,9 +299,12 @@ def run(ctx):
                 "side x reverse in {False, True}; per index every removal order; in every "
                 "distinct removed-set state nearest() for the query lattice (inside, on and "
                 "outside the grid, cell borders); states reached by different orders compared "
-                "field by field; non-trivial = indexes with more than one candidate end",
+                "field by field; 3 (4) layouts of 41..150 (400) paths x bins {3,6,10,13} x reverse x "
+                "three removal orders queried after every removal; non-trivial = indexes with "
+                "more than one candidate end",
         "samples": core.rotate(part.samples, ctx.seed, 4),
         "indexes": cnt.get("indexes", 0),
+        "big_histories": cnt.get("big_histories", 0),
         "nearest_queries": cnt.get("queries", 0),
         "state_merges_compared": cnt.get("state_merges_compared", 0),
         "skipped_zero_extent": cnt.get("skipped_zero_extent", 0),
